@@ -95,6 +95,8 @@ def call_name(call):
 
 def call_tail(call):
     """Last component of the callee: `self.x.store(...)` -> 'store', `f(...)` -> 'f'."""
+    if not isinstance(call, ast.Call):
+        return None
     f = call.func
     if isinstance(f, ast.Attribute):
         return f.attr
@@ -105,6 +107,8 @@ def call_tail(call):
 
 def call_recv(call):
     """Receiver expression text of a method call (None for plain calls)."""
+    if not isinstance(call, ast.Call):
+        return None
     f = call.func
     if isinstance(f, ast.Attribute):
         return U(f.value)
